@@ -672,6 +672,187 @@ class Scripts:
                     self.emit('irq')
                     self.emit('#= nohop')
 
+    def mixed(self, n, maxlen_fixed=2047):
+        """one handle, both modems, all four packet paths, in any order: every script is a random
+        sequence of episodes (LoRa reception, LoRa transmission, FSK/OOK reception, FSK/OOK
+        transmission, abandoned ones, configuration calls, handle re-creation), each complete
+        episode followed by the expectation of its own property.  What one episode leaves in the
+        handle, the cache or the chip is what the next one starts from."""
+        r = self.rnd
+        SAFE_LORA = ['set_frequency %d' % f for f in (433000000, 868100000, 915000000)] + [
+            'lora_set_bandwidth 0x70', 'lora_set_bandwidth 0x90', 'lora_set_modem_config_2 0x90', 'lora_set_modem_config_2 0x70',
+            'lora_set_syncword 18', 'set_preamble_length 8', 'rx_set_lna_gain 0', 'rx_set_lna_gain 0x20', 'rx_set_lna_boost_hf 1',
+            'tx_set_pa_config 0x80 4', 'tx_set_pa_config 0 2', 'lora_set_low_datarate_optimization 1', 'rx_get_packet_rssi',
+            'lora_rx_get_packet_snr', 'rx_get_frequency_error', 'lora_get_bandwidth', 'get_frequency', 'lora_set_ppm_offset 4000']
+        SAFE_FSK = ['set_frequency %d' % f for f in (433000000, 868100000)] + [
+            'fsk_ook_set_bitrate %d' % f32bits(4800.0), 'fsk_set_fdev %d' % f32bits(5000.0), 'set_preamble_length 4',
+            'fsk_ook_rx_set_afc_auto 1', 'fsk_ook_rx_set_trigger 6', 'fsk_ook_set_packet_encoding 0', 'fsk_ook_set_preamble_type 1',
+            'fsk_ook_rx_set_bandwidth %d' % f32bits(10000.0), 'rx_set_lna_gain 0', 'tx_set_pa_config 0x80 4', 'get_frequency',
+            'fsk_ook_set_syncword 12ad', 'fsk_ook_rx_set_preamble_detector 1 2 10', 'rx_get_frequency_error', 'fsk_ook_set_temp_monitor 1']
+        for _ in range(n):
+            self.begin('mixed')
+            self.prologue(LORA, rand_chip=r.random() < 0.5)
+            self.emit('env chip l 0x24 0')      # no frequency hopping left over from a random chip
+            st = {'mod': LORA, 'implicit': None}
+
+            def to_modem(m):
+                """the documented way across modems: sleep in the old one, sleep in the new one"""
+                if st['mod'] != m:
+                    if (st['mod'] == LORA) != (m == LORA):
+                        self.emit('set_opmod 0 %d' % st['mod'])
+                    self.emit('set_opmod 0 %d' % m)
+                    st['mod'] = m
+                self.emit('set_opmod 1 %d' % m)
+
+            def fsk_mod():
+                return st['mod'] if st['mod'] != LORA else r.choice([FSK, OOK])
+
+            def ep_lora_rx(abandon=False):
+                to_modem(LORA)
+                c = r.random()
+                if c < 0.2:
+                    st['implicit'] = r.choice([1, 8, 255, r.randint(1, 255)])
+                    self.emit('lora_set_implicit_header %d 1 2' % st['implicit'])
+                elif c < 0.4:
+                    self.emit(r.choice(['lora_set_implicit_header NULL', 'lora_tx_set_explicit_header 1 2']))
+                    st['implicit'] = None
+                self.emit('set_opmod 5 0x80')
+                if abandon:
+                    return
+                for _ in range(r.randint(1, 3)):
+                    n_b = st['implicit'] if st['implicit'] else r.choice([1, 2, 64, 255, r.randint(1, 255)])
+                    crcerr = r.random() < 0.2
+                    data = self.api.bytes_hex(n_b)
+                    self.emit('env lorarx %d %d %s' % (r.choice([0, 255, r.randint(0, 255)]), 1 if crcerr else 0, data))
+                    self.emit('irq')
+                    self.emit('#= lorarx %d %s' % (1 if crcerr else 0, data))
+
+            def ep_lora_tx(abandon=False):
+                to_modem(LORA)
+                self.emit('lora_reset_fifo')
+                n_b = r.choice([1, 2, 255, r.randint(1, 255)])
+                if st['implicit'] and r.random() < 0.5:
+                    n_b = st['implicit']
+                data = self.api.bytes_hex(n_b)
+                self.emit('lora_tx_set_for_transmission %s' % data)
+                self.emit('dump')
+                self.emit('#= loratx %s' % data)
+                self.emit('set_opmod 3 0x80')
+                if abandon:
+                    return
+                self.emit('env loraflags 8')
+                self.emit('irq')
+                self.emit('#= txdone 8')
+
+            def fsk_config():
+                variable = r.random() < 0.6
+                crc = r.choice([0x08, 0x18, 0x19])
+                filt = r.choice([0, 0, 2])
+                self.emit('fsk_ook_set_crc %d' % crc)
+                self.emit('fsk_ook_set_address_filtering %d 17 255' % filt)
+                fixed_len = None
+                if variable:
+                    self.emit('fsk_ook_set_packet_format 0x80 255')
+                else:
+                    fixed_len = min(maxlen_fixed, r.choice([2, 30, 64, 65, 100, 255, 300, r.randint(2, 400)]))
+                    self.emit('fsk_ook_set_packet_format 0 %d' % fixed_len)
+                return variable, crc, filt, fixed_len
+
+            def ep_fsk_rx(abandon=False):
+                m = fsk_mod()
+                to_modem(m)
+                variable, crc, filt, fixed_len = fsk_config()
+                self.emit('write_register 0x3f 0x10')
+                self.emit('set_opmod 5 %d' % m)
+                if abandon:
+                    # the first batch of a long packet is read, then the application gives up
+                    if variable and not filt:
+                        self.emit('env rxbyte 150')
+                        for _ in range(39):
+                            self.emit('env rxbyte %d' % r.randint(0, 255))
+                        self.emit('irq')
+                    self.emit('set_opmod 1 %d' % m)
+                    self.emit('write_register 0x3f 0x10')
+                    return
+                for _ in range(r.randint(1, 2)):
+                    if variable:
+                        plen = r.choice([0, 1, 30, 31, 62, 64, 65, 95, 200, 254, r.randint(0, 254)])
+                    else:
+                        plen = fixed_len - (1 if filt else 0)
+                    payload = [r.randint(0, 255) for _ in range(plen)]
+                    frame = self.fsk_frame(variable, 17 if filt else None, payload)
+                    crcok = (crc == 0x08) or r.random() < 0.8
+                    self.fsk_rx_schedule(frame, crc, crcok, variable, bool(filt))
+                    self.emit('#= fskrx %d %s' % (1 if (crcok or crc == 0x08) else 0, ''.join('%02x' % b for b in payload) or '-'))
+                self.emit('set_opmod 1 %d' % m)
+
+            def ep_fsk_tx(abandon=False):
+                m = fsk_mod()
+                to_modem(m)
+                variable, crc, filt, fixed_len = fsk_config()
+                self.emit('write_register 0x3f 0x10')
+                with_addr = r.random() < 0.3
+                mx = (255 if variable else fixed_len) - (1 if with_addr else 0)
+                plen = max(1, min(mx, r.choice([1, 2, 30, 63, 64, 65, 96, 200, 254, r.randint(1, 300)])))
+                if abandon:
+                    plen = max(1, min(mx, r.randint(70, 250)))
+                payload = [r.randint(0, 255) for _ in range(plen)]
+                hexp = ''.join('%02x' % b for b in payload)
+                frame = self.fsk_frame(variable, 0x22 if with_addr else None, payload)
+                call = ('fsk_ook_tx_set_for_transmission_with_address %s 0x22' % hexp) if with_addr else ('fsk_ook_tx_set_for_transmission %s' % hexp)
+                self.emit('set_opmod 3 %d' % m)
+                self.emit('oncb tx set_opmod 1 %d' % m)
+                if abandon:
+                    self.emit(call)
+                    if r.random() < 0.5 and len(frame) > 64:
+                        for _ in range(40):
+                            self.emit('env txshift')
+                        self.emit('irq')
+                    self.emit('set_opmod 1 %d' % m)
+                    self.emit('write_register 0x3f 0x10')
+                    self.emit('oncb tx -')
+                    return
+                self.emit('#= fsktx_begin')
+                self.emit(call)
+                self.tx_schedule(len(frame))
+                self.emit('env chip f 0x3f 0')
+                self.emit('#= fsktx_end 1 %s' % ''.join('%02x' % b for b in frame))
+                self.emit('oncb tx -')
+
+            def ep_config():
+                if st['mod'] == LORA:
+                    self.emit('set_opmod 1 0x80')
+                    for _ in range(r.randint(1, 4)):
+                        self.emit(r.choice(SAFE_LORA))
+                else:
+                    self.emit('set_opmod 1 %d' % st['mod'])
+                    for _ in range(r.randint(1, 4)):
+                        self.emit(r.choice(SAFE_FSK))
+
+            def ep_recreate():
+                # a new handle on the chip as it is (the host restarted); the chip keeps its modem
+                self.emit('set_opmod 1 %d' % st['mod'])
+                if st['mod'] != LORA:
+                    self.emit('write_register 0x3f 0x10')
+                self.emit('create')
+                self.emit('rx_set_callback 1')
+                self.emit('tx_set_callback 1')
+                self.emit('lora_cad_set_callback 1')
+                # the fresh handle says LoRa; the application tells it what the chip runs
+                self.emit('set_opmod 1 %d' % st['mod'])
+
+            eps = [ep_lora_rx, ep_lora_tx, ep_fsk_rx, ep_fsk_tx]
+            for _ in range(r.randint(3, 8)):
+                c = r.random()
+                if c < 0.15:
+                    ep_config()
+                elif c < 0.22:
+                    ep_recreate()
+                elif c < 0.4:
+                    r.choice(eps)(abandon=True)
+                else:
+                    r.choice(eps)()
+
     def fsk_frame(self, fmt_variable, address, payload):
         frame = []
         if fmt_variable:
